@@ -1,14 +1,16 @@
 package main
 
 import (
-	"verif.local/mc/harness/c08"
-	"verif.local/mc/harness/c18"
 	"verif.local/mc/harness/c07"
+	"verif.local/mc/harness/c08"
+	"verif.local/mc/harness/c09"
 	"verif.local/mc/harness/c17"
+	"verif.local/mc/harness/c18"
 	"verif.local/mc/harness/c19"
 )
 
 func init() {
+	register("C09", "exploration", c09.Run)
 	register("C08", "fault_enumeration", c08.Run)
 	register("C18", "model_checking", c18.Run)
 	register("C07", "exploration", c07.Run)
